@@ -418,28 +418,70 @@ def r20_3(cx):
             cx.report('R20.3', b, 'searcher-fields', ok, 'AhoCorasick { aut, kind } come from the same pair and start_kind is the builder\'s' if ok else 'AhoCorasick literal = %s' % tstr(t, 200))
 
 
+SETTERS = {
+    # setter -> (inner builders that must receive the same option through the same-named setter, fields of self that must store it)
+    'ahocorasick::AhoCorasickBuilder::ascii_case_insensitive': (['self.nfa_noncontiguous', 'self.nfa_contiguous', 'self.dfa'], []),
+    'ahocorasick::AhoCorasickBuilder::byte_classes': (['self.nfa_contiguous', 'self.dfa'], []),
+    'ahocorasick::AhoCorasickBuilder::dense_depth': (['self.nfa_noncontiguous', 'self.nfa_contiguous'], []),
+    'ahocorasick::AhoCorasickBuilder::kind': ([], ['self.kind']),
+    'ahocorasick::AhoCorasickBuilder::match_kind': (['self.nfa_noncontiguous', 'self.nfa_contiguous', 'self.dfa'], []),
+    'ahocorasick::AhoCorasickBuilder::prefilter': (['self.nfa_noncontiguous', 'self.nfa_contiguous', 'self.dfa'], []),
+    'ahocorasick::AhoCorasickBuilder::start_kind': (['self.dfa'], ['self.start_kind']),
+    'dfa::Builder::ascii_case_insensitive': (['self.noncontiguous'], []),
+    'dfa::Builder::byte_classes': ([], ['self.byte_classes']),
+    'dfa::Builder::match_kind': (['self.noncontiguous'], []),
+    'dfa::Builder::prefilter': (['self.noncontiguous'], []),
+    'dfa::Builder::start_kind': ([], ['self.start_kind']),
+    'nfa::contiguous::Builder::ascii_case_insensitive': (['self.noncontiguous'], []),
+    'nfa::contiguous::Builder::byte_classes': ([], ['self.byte_classes']),
+    'nfa::contiguous::Builder::dense_depth': ([], ['self.dense_depth']),
+    'nfa::contiguous::Builder::match_kind': (['self.noncontiguous'], []),
+    'nfa::contiguous::Builder::prefilter': (['self.noncontiguous'], []),
+    'nfa::noncontiguous::Builder::ascii_case_insensitive': ([], ['self.ascii_case_insensitive']),
+    'nfa::noncontiguous::Builder::dense_depth': ([], ['self.dense_depth']),
+    'nfa::noncontiguous::Builder::match_kind': ([], ['self.match_kind']),
+    'nfa::noncontiguous::Builder::prefilter': ([], ['self.prefilter']),
+}
+
+
 def r20_5(cx):
-    """builder option plumbing for options a user can observe"""
-    for opt, need in (('match_kind', ['nfa_noncontiguous']), ('ascii_case_insensitive', ['nfa_noncontiguous']), ('start_kind', ['dfa', 'self.start_kind']), ('kind', ['self.kind'])):
-        b = cx.body('ahocorasick::AhoCorasickBuilder::' + opt)
-        param = ('v', b.locals[2]['names'][0], 2)
-        got = []
-        for bi, t in b.calls():
-            ct = b.call_term(bi, t)
-            if len(ct[2]) == 2 and ct[2][1] == param and short(ct[1]).endswith('::' + opt):
-                got.append(tstr(peel(ct[2][0])).replace('self.', ''))
-        for bi, si, tt, v, s in b.field_stores():
-            if v == param:
-                got.append(tstr(tt))
-        ok = all(any(n == g or n == g.replace('self.', '') or ('self.' + n) == g for g in got) for n in need)
-        cx.report('R20.5', b, 'plumbing', ok, '%s reaches %s' % (opt, need) if ok else 'option %s reaches only %s (needed: %s)' % (opt, got, need))
-    for sub, opts in (('nfa::noncontiguous::Builder', ('match_kind', 'ascii_case_insensitive')), ('dfa::Builder', ('start_kind',))):
-        for opt in opts:
-            b = cx.body('%s::%s' % (sub, opt))
-            param = ('v', b.locals[2]['names'][0], 2)
-            st = [tstr(tt) for bi, si, tt, v, s in b.field_stores() if v == param]
-            ok = st == ['self.' + opt]
-            cx.report('R20.5', b, 'store', ok, '%s::%s stores the option' % (sub, opt) if ok else '%s::%s stores into %s' % (sub, opt, st))
+    """Builder option plumbing, decided on the setters' path summaries: an option set on a builder reaches every inner
+    builder through the setter OF THE SAME NAME and is stored in the field of the same name, unconditionally and unchanged."""
+    from acverif.sym import summarize, canon, cstr
+    from acverif.rl import param_at
+    n = 0
+    for path, (inner, fields) in sorted(SETTERS.items()):
+        b = cx.body(path)
+        n += 1
+        opt = path.rsplit('::', 1)[1]
+        rows = [r for r in summarize(cx.facts, b) if r.end == 'return']
+        P = cstr(param_at(b, 2))
+        why = None
+        if len(rows) != 1 or rows[0].conds:
+            why = 'the option is forwarded conditionally (%d paths)' % len(rows)
+        else:
+            r = rows[0]
+            got_inner, got_fields = [], []
+            for c in r.calls(r'Builder::\w+$'):
+                cc = canon(c)
+                m = short(cc[1]).rsplit('::', 1)[1]
+                if len(cc[2]) != 2:
+                    continue
+                if m != opt:
+                    why = why or 'the setter %s calls %s on %s' % (opt, m, cstr(cc[2][0]))
+                elif cstr(cc[2][1]) != P:
+                    why = why or 'the value forwarded to %s is %s, not the argument' % (cstr(cc[2][0]), cstr(cc[2][1]))
+                else:
+                    got_inner.append(cstr(cc[2][0]))
+            for pl, v in r.stores():
+                if cstr(canon(v)) == P:
+                    got_fields.append(cstr(canon(pl)))
+                elif cstr(canon(pl)) in fields:
+                    why = why or '%s is set to %s, not the argument' % (cstr(canon(pl)), cstr(canon(v)))
+            if sorted(got_inner) != sorted(inner) or sorted(got_fields) != sorted(fields):
+                why = why or 'option %s reaches %s (expected %s)' % (opt, sorted(got_inner + got_fields), sorted(inner + fields))
+        cx.report('R20.5', b, 'plumbing', why is None, '%s reaches %s unconditionally and unchanged' % (opt, ', '.join(inner + fields)) if why is None else why)
+    cx.floor('R20.5', 'builder option setters', n, 21)
 
 
 def r11_3(cx):
